@@ -206,7 +206,9 @@ func (pd *perBitData) parseBitString(extensed bool, lowerBoundPtr *int64, upperB
 		}
 	}
 	if ub > 65535 {
+		// X.691 10.9.4.2: no upper bound below 64K - the length itself is encoded, not its offset from the lower bound
 		sizeRange = -1
+		lb = 0
 	}
 	// initailization
 	bitString := BitString{[]byte{}, 0}
@@ -300,7 +302,9 @@ func (pd *perBitData) parseOctetString(extensed bool, lowerBoundPtr *int64, uppe
 		}
 	}
 	if ub > 65535 {
+		// X.691 10.9.4.2: no upper bound below 64K - the length itself is encoded, not its offset from the lower bound
 		sizeRange = -1
+		lb = 0
 	}
 	// initailization
 	octetString := OctetString("")
